@@ -61,6 +61,8 @@ def gene_locations(total, max_exons, introns):
                     # exons ascending from position 20
                     pos = 20
                     exons = []
+                    if intron < 0 and min(lens) <= -intron:
+                        continue        # an exon must be longer than the overlap with its neighbour
                     for ln in lens:
                         exons.append((pos, pos + ln))
                         pos += ln + intron
@@ -74,6 +76,8 @@ def gene_locations(total, max_exons, introns):
                             placements.append((-(s + 1), f"in-exon-first-base-{idx}"))
                         if idx + 1 < len(exons) and intron > 1:
                             placements.append((-(e + 1), f"in-intron-{idx}"))
+                    if intron < 0:
+                        placements = placements[:2]     # overlapping exons are not rotated onto the origin
                     seen = set()
                     for shift, tag in placements:
                         circ = shift is not None
@@ -101,9 +105,10 @@ N_SPLIT = 4
 
 def shards(tier):
     if tier == "quick":
-        plans = [(12, 3, (1, 3)), (15, 3, (1, 3))]
+        # (a negative intron is an overlap: exons of a programmed frameshift read the bases at their junction twice)
+        plans = [(12, 3, (1, 3, -1)), (15, 3, (1, 3))]
     else:
-        plans = [(12, 4, (1, 2, 3, 4)), (15, 4, (1, 2, 3)), (18, 3, (1, 2, 3)), (21, 3, (1, 3)), (24, 2, (1, 3))]
+        plans = [(12, 4, (1, 2, 3, 4, -1, -2)), (15, 4, (1, 2, 3)), (18, 3, (1, 2, 3)), (21, 3, (1, 3)), (24, 2, (1, 3))]
     out = []
     for total, max_exons, introns in plans:
         for strand in (1, -1):
